@@ -85,7 +85,7 @@ def record(lentil, tier, seed, reverse=False):
         sd = rng.choice(seeds)
         sd2 = rng.choice([s for s in seeds if s != sd])
         for method in ('poisson', 'gaussian'):
-            pred = {'shape': lambda a, sh=sh: a.shape == sh, 'integer': lambda a: np.all(a == np.round(a)), 'nonneg': lambda a: np.all(a >= 0),
+            pred = {'shape': lambda a, sh=sh: tuple(np.shape(a)) == tuple(sh), 'integer': lambda a: np.all(a == np.round(a)), 'nonneg': lambda a: np.all(a >= 0),
                     'moments': lambda a: True}
             for s in (sd, sd2, sd):
                 call('shot_noise', f'{method}|{key_img}', s, lambda s=s, method=method: d.shot_noise(img, method=method, seed=s), pred)
@@ -95,7 +95,7 @@ def record(lentil, tier, seed, reverse=False):
                           9.22337203e18, np.where(np.arange(img.size).reshape(sh) == 0, 9.2233720368e18, img)]
             b = rng.choice(bad_inputs)
             call('shot_noise', f'{method}|bad|{dg(b)}', sd, lambda b=b, method=method: d.shot_noise(b, method=method, seed=sd), {}, expect='reject')
-        pred = {'shape': lambda a, sh=sh: a.shape == sh, 'finite': lambda a: np.all(np.isfinite(a)), 'moments': lambda a: True}
+        pred = {'shape': lambda a, sh=sh: tuple(np.shape(a)) == tuple(sh), 'finite': lambda a: np.all(np.isfinite(a)), 'moments': lambda a: True}
         for s in (sd, sd2, sd):
             call('read_noise', f'{key_img}|10', s, lambda s=s: d.read_noise(img, 10, seed=s), pred)
         img_i = img.astype(rng.choice((np.int64, np.int32, np.uint16)))
@@ -105,13 +105,13 @@ def record(lentil, tier, seed, reverse=False):
              dict(pred, moments=lambda a: np.allclose(a, d.read_noise(img, 0.4, seed=sd), rtol=0, atol=1e-9)))
         rate = rng.choice((50.7, 3.2, 120.0, 0.99999999, 100.99999999, 4095.9999, 2.0 ** 24 + 1.5, 16777217.0))
         call('dark_current', f'{rate}|{sh}|0', sd, lambda: d.dark_current(rate, shape=sh, fpn_factor=0, seed=sd),
-             {'shape': lambda a, sh=sh: a.shape == sh, 'floor_rate': lambda a: np.all(a == np.floor(rate))}, expect='nofpn', sensitive=False)
+             {'shape': lambda a, sh=sh: tuple(np.shape(a)) == tuple(sh), 'floor_rate': lambda a: np.all(a == np.floor(rate))}, expect='nofpn', sensitive=False)
         for s in (sd, sd2, sd):
             call('dark_current', f'{rate}|{sh}|0.2', s, lambda s=s: d.dark_current(rate, shape=sh, fpn_factor=0.2, seed=s),
-                 {'shape': lambda a, sh=sh: a.shape == sh, 'integer': lambda a: np.all(a == np.round(a)), 'nonneg': lambda a: np.all(a >= 0)},
+                 {'shape': lambda a, sh=sh: tuple(np.shape(a)) == tuple(sh), 'integer': lambda a: np.all(a == np.round(a)), 'nonneg': lambda a: np.all(a >= 0)},
                  sensitive=np.prod(sh) >= 16)
             call('rule07_dark_current', f'{sh}|0.1', s, lambda s=s: d.rule07_dark_current(150, 5e-6, 18e-6, shape=sh, fpn_factor=0.1, seed=s),
-                 {'shape': lambda a, sh=sh: a.shape == sh, 'integer': lambda a: np.all(a == np.round(a)), 'nonneg': lambda a: np.all(a >= 0)},
+                 {'shape': lambda a, sh=sh: tuple(np.shape(a)) == tuple(sh), 'integer': lambda a: np.all(a == np.round(a)), 'nonneg': lambda a: np.all(a >= 0)},
                  sensitive=False)        # the rate may be below one electron: the draw can be all zeros whatever the seed
         # surface error with a power-law spectrum: masks of any aspect ratio
         msh = rng.choice([(8, 8), (6, 9), (12, 5), (7, 7), (10, 16)])
@@ -135,13 +135,13 @@ def record(lentil, tier, seed, reverse=False):
     # cosmic rays: every random state of the (enumerated) global generator
     for gs in range(64 if q else 256):
         sh = rng.choice([(6, 6), (5, 9), (12, 4)])
-        en = rng.choice((200.0, 2000.0))
+        en = rng.choice((200.0, 2000.0, 0.5, 2.0))           # (short exposures: often no ray at all hits the frame)
 
         def cr(sh=sh, gs=gs, en=en):
             np.random.seed(gs)
             return d.cosmic_rays(sh, (5e-6, 5e-6, 3e-6), en, rate=4e8)
         call('cosmic_rays', f'{sh}|{en}', gs, cr,
-             {'shape': lambda a, sh=sh: a.shape == sh, 'finite': lambda a: np.all(np.isfinite(a)), 'nonneg': lambda a: np.all(a >= 0)},
+             {'shape': lambda a, sh=sh: tuple(np.shape(a)) == tuple(sh), 'finite': lambda a: np.all(np.isfinite(a)), 'nonneg': lambda a: np.all(a >= 0)},
              sensitive=False)
     for (a, k, env) in (reversed(plan) if reverse else plan):
         execute(*a, env=env, **k)
